@@ -98,6 +98,20 @@ def run(chk):
             parsed = None
         chk.check(parsed == val, "R2", f"{E}:_revert_variable | {what} ({val}) is written as {text!r}", rv.loc(),
                   f"the importer's int(text, 0) {'cannot parse it' if parsed is None else 'reads ' + str(parsed)}: the value is lost on re-import")
+    for code, val, what in ((O.DATA_TYPES["REAL32"][0], 3.141592653589793, "REAL32"), (O.DATA_TYPES["REAL64"][0], -1.2345678901234567e-05, "REAL64")):
+        r = partial_eval(folder, rv.node, rv.mod, None, {"var_type": code, "value": val})
+        text = _revert_text(folder, rv, code, val)
+        if r[0] == "return" and isinstance(r[1], float):
+            chk.check(r[1] == val, "R2", f"{E}:_revert_variable | {what} default handed on unchanged", rv.loc(), f"{r[1]!r} != {val!r}")
+        elif text is not None:
+            try:
+                back = float(text)
+            except ValueError:
+                back = None
+            chk.check(back == val, "R2", f"{E}:_revert_variable | {what} default written as {text!r}", rv.loc(),
+                      f"re-import reads {back!r} instead of {val!r}: the text keeps too few digits")
+        else:
+            chk.unk("R2", f"{E}:_revert_variable | {what}", rv.loc(), f"float branch not specialised: {r}")
     # ------------------------------------------------------------------ R3 signed widths (shared)
     f, widths = signed_widths(repo, folder)
     for name, (bits, r) in widths.items():
@@ -195,6 +209,10 @@ def run(chk):
               "the file opened by export_od is not closed in a finally clause guarded by opened_here")
     for o in opens:
         chk.check(any(fl in fx.cfg.reach_from(o) for fl in flags), "R6", f"{OD}:export_od | flag set after opening", xo.loc(o.ast), "")
+    for n in [x for x in fx.cfg.nodes if x.kind == "stmt" and isinstance(x.ast, ast.Assign) and src(x.ast.targets[0]) == "doc_type"]:
+        g = [(src(e), p) for e, p in fx.facts_at(n.ast)]
+        chk.check(("doc_type is None", True) in g, "R6", f"{OD}:export_od | `{src(n.ast)}` only when no document type was given", xo.loc(n.ast),
+                  f"doc_type is overwritten under {g}: the file name's suffix overrides an explicit doc_type, so the destination changes the document")
     exports = [c for c in ast.walk(xo.node) if isinstance(c, ast.Call) and dotted(c.func) in ("eds.export_eds", "eds.export_dcf")]
     chk.check(len(exports) == 2 and all([src(a) for a in c.args] == ["od", "dest"] for c in exports), "R6", f"{OD}:export_od | same (od, dest) handed to both writers", xo.loc(), "")
     for c in exports:
